@@ -140,6 +140,10 @@ def _on_instruction(code, offset):
     return None
 
 
+def _on_start(code, offset):
+    return _on_line(code, code.co_firstlineno)
+
+
 def external_point(tag):
     """Scheduling point requested by harness code (fake socket operations) on behalf of the running thread."""
     ex = _active
@@ -150,21 +154,23 @@ def external_point(tag):
         ex.point(rec, None, tag)
 
 
-def install(instruction_level_for=(), extra_functions=(), only=None):
+def install(instruction_level_for=(), extra_functions=(), only=None, entry_only=False):
     """Enable LINE events on all hl7apy function code objects (idempotent); INSTRUCTION events on the
-    code objects of the given functions."""
+    code objects of the given functions.  only: restrict to these code objects; entry_only: one point per call
+    of such a code object (at its entry) instead of one per line."""
     global _installed
     if not _installed:
         if MON.get_tool(TOOL) is None:
             MON.use_tool_id(TOOL, 'verif-sched')
         MON.register_callback(TOOL, E.LINE, _on_line)
         MON.register_callback(TOOL, E.INSTRUCTION, _on_instruction)
+        MON.register_callback(TOOL, E.PY_START, _on_start)
         _installed = True
     n = 0
     _instr_codes.clear()
     for co in library_code_objects():
         try:
-            MON.set_local_events(TOOL, co, E.LINE if (only is None or co in only) else 0)
+            MON.set_local_events(TOOL, co, (E.PY_START if entry_only else E.LINE) if (only is None or co in only) else 0)
             n += 1
         except ValueError:
             pass
@@ -192,6 +198,7 @@ def uninstall():
                 pass
         MON.register_callback(TOOL, E.LINE, None)
         MON.register_callback(TOOL, E.INSTRUCTION, None)
+        MON.register_callback(TOOL, E.PY_START, None)
         MON.free_tool_id(TOOL)
         _instr_codes.clear()
         _installed = False
